@@ -92,11 +92,11 @@ Theorem score_ends_with_tail_marker_as_found_refuted :
                  /\ exists m, In m init /\ s_b m = SBundle false (1#4) 1073741824 [SMsg cset_msg] /\ s_time m < s_time s.
 Proof. exact f17_refuted. Qed.
 
-(* binary form: the concatenation, in score order, of the length-prefixed encodings of the same
-   bundles (enc = the OSC encoder, opaque here; C06 owns it).  _partial: the statement is the
-   model's definition of the raw form unfolded plus its length law; that the real raw bytes split
-   into exactly these chunks is checked by the correspondence with an independent splitter. *)
-Theorem raw_is_concat_of_prefixed_encodings_partial : forall (enc : selem -> list Z) qk p fuel,
+(* the raw form for ANY encoder enc (opaque here): concatenation, in score order, of the length-prefixed
+   encodings, and its length law.  This is the model's definition unfolded (it was the stand-in named
+   *_partial); the property clause itself -- with the PROVED OSC encoder of C06, unique decodability and
+   decoding back to the list view -- is raw_is_concat_of_prefixed_encodings below. *)
+Theorem raw_concat_any_encoder : forall (enc : selem -> list Z) qk p fuel,
   score_raw enc (n_score (nrt_run qk p fuel)) =
     concat (map (fun s => be32 (length (enc (s_b s))) ++ enc (s_b s)) (n_score (nrt_run qk p fuel))) /\
   length (score_raw enc (n_score (nrt_run qk p fuel))) =
@@ -189,5 +189,32 @@ Example c07_raw_example :
   end = (240%nat, Some [48; 32; 68; 32; 40]%nat, [0; 1073741824; 2147483648; 3221225472; 3221225472]%Z).
 Proof. vm_compute. reflexivity. Qed.
 
+(* ---- bundles nested in a MESSAGE (completion messages: ['/cmd', ..., [latency, elems...]]) ----------
+   _build_msg(send_time, args) hands the message's OWN send instant to _build_bundle for a list argument
+   headed by a number/None, and there is no enclosing bundle to compare with; so what the blob carries is
+   stamp_bundle md T lat es.  For every mode, instant T, latency and element tree that the builder accepts:
+   the nested bundle and everything inside it is stamped from its own latency and the SAME instant T, no
+   inner bundle precedes its parent; in RT a None/negative latency gives IMMEDIATELY and a latency l >= 0 the
+   timetag elapsed_to_osc(l + T); in NRT int((latency + T) * 2^32) inside routines, latency alone outside.
+   That T is the sending thread's LOGICAL time for send_msg / send_bundle from a (late) routine on every clock
+   is not expressible in the script language (no message-with-list-argument action; the act type is shared
+   with C10) and is tied by the msgnest correspondence: bytes read back versus this kernel. *)
+Theorem message_nested_bundle_stamp : forall md T lat es sb, stamp_bundle md T lat es = Some sb ->
+  stamped md T (EBundle lat es) sb /\ nest_ok sb /\
+  (exists ss, sb = SBundle (stamp_imm md lat) (stamp_time md T lat) (stamp_tag md T lat) ss) /\
+  (forall off, md = MRt off ->
+     (lat_immediate lat = true -> stamp_tag md T lat = 1%Z /\ stamp_imm md lat = true) /\
+     (forall l, lat = Some l -> 0 <= l ->
+        stamp_tag md T lat = elapsed_to_osc off (l + T) /\ stamp_imm md lat = false)) /\
+  (forall inside, md = MNrt inside ->
+     stamp_tag md T lat = Qtrunc ((lat_val lat + (if inside then T else 0)) * two32) /\ stamp_imm md lat = false).
+Proof. exact msg_nested_stamp. Qed.
+Example message_nested_example :
+  stamp_bundle (MRt 1000) (5#2) (Some (1#4)) [EMsg 1; EBundle None [EMsg 2]] = None /\
+  stamp_bundle (MRt 1000) (5#2) None [EMsg 1; EBundle (Some (1#4)) [EMsg 2]] =
+    Some (SBundle true (5#2) 1 [SMsg 1; SBundle false (11#4) 11811161064 [SMsg 2]]).
+Proof. vm_compute. split; reflexivity. Qed.
+
 Print Assumptions raw_is_concat_of_prefixed_encodings.
 Print Assumptions score_times_exact_timetags.
+Print Assumptions message_nested_bundle_stamp.
